@@ -102,9 +102,10 @@ _expect = {}
 
 def verify_complete(ctx, kind, tag, out, d):
     """a save/delete that returned normally must have written the complete new state"""
-    exp = _expect.get((kind.name, d["sample"], tag))
-    if exp is None:
+    key = (kind.name, d["sample"], tag)
+    if key not in _expect:
         return
+    exp = _expect[key]         # None is an expectation too: "no tags" after a delete
     try:
         got = KM.canon_mem(kind, kind.open(io.BytesIO(out)))
     except Exception as e:
